@@ -394,6 +394,8 @@ func diskTwinP1(s *scen.P1Set, start *envfs.FS, o, oa *scen.P1Obs, c *p1Case, r 
 	var vres par1.VerifyResult
 	var verr, rerr error
 	var rres par1.RepairResult
+	absIndex := index
+	index = twinSpell(decoy, index)
 	if pi := core.Catch(func() { vres, verr = par1.Verify(index, par1.VerifyOptions{VerifyAllData: true}) }); pi != nil {
 		r.Violate("disk-verify-panic:"+pi.Frame, pi.Value+"\n"+pi.Stack)
 		return
@@ -411,7 +413,11 @@ func diskTwinP1(s *scen.P1Set, start *envfs.FS, o, oa *scen.P1Obs, c *p1Case, r 
 		r.Violatef("disk-run-differs-from-in-memory-run:repair-error", "real directory: %v; in-memory: %v", rerr, o.RepairErr)
 	}
 	var a, b []string
+	_ = absIndex
 	for _, p := range rres.RepairedPaths {
+		if !filepath.IsAbs(p) {
+			p = filepath.Join(decoy, p) // reported relative to the working directory, as the index path was given
+		}
 		a = append(a, strings.TrimPrefix(filepath.Clean(p), root))
 	}
 	for _, p := range o.RepairedPaths {
